@@ -8822,7 +8822,22 @@ void SoPlexBase<R>::_syncLPRational(bool time)
 
    // copy LP
    _ensureRationalLP();
-   *_rationalLP = *_realLP;
+
+   if(_realLP->isScaled())
+   {
+      // after a solve with persistent scaling the real LP holds scaled numbers; the rational LP has to receive the
+      // numbers of the user's LP, so it is copied from an unscaled copy
+      SPxLPBase<R>* origLP = nullptr;
+      spx_alloc(origLP);
+      origLP = new(origLP) SPxLPBase<R>(*_realLP);
+      origLP->unscaleLP();
+      *_rationalLP = *origLP;
+      origLP->~SPxLPBase<R>();
+      spx_free(origLP);
+   }
+   else
+      *_rationalLP = *_realLP;
+
    _recomputeRangeTypesRational();
 
    // stop timing
